@@ -8,6 +8,7 @@ positive functions of temperature), _fuel_cond;
 dassh.region_rodded.RoddedRegion.calculate_pin_temperatures (coolant average).
 """
 from __future__ import annotations
+from fractions import Fraction
 import math
 import numpy as np
 from . import common
@@ -223,6 +224,13 @@ def coolant_weights(S, cfg):
             for k, v in w.items():
                 S.le(f'coolant.weight_nonneg[{p},{k}]', 0, v)
             S.holds(f'coolant.only_adjacent[{p}]', set(w) <= {names[c] for c in adj})
+            # ... and EVERY adjacent subchannel takes part, with the share of the pin's circumference that faces it
+            # (1/6 towards an interior or corner subchannel, 1/4 towards an edge subchannel)
+            typ = rr.subchannel.type
+            for c in adj:
+                share = {0: Fraction(1, 6), 1: Fraction(1, 4), 2: Fraction(1, 6)}[int(typ[c])]
+                S.eq(f'coolant.weight_is_circumference_share[{p},{names[c]}]', w.get(names[c], Sym(core.C(0))),
+                     Sym(core.C(core.Q3(share, 0))))
         else:
             S.le(f'coolant.within_adjacent_range.lo[{p}]', min(T[c] for c in adj), Tc[p], scale=1e3)
             S.le(f'coolant.within_adjacent_range.hi[{p}]', Tc[p], max(T[c] for c in adj), scale=1e3)
